@@ -98,7 +98,7 @@ def write_evidence(prop, tier, seed, level, results, cut, wall, extra, nviol):
         "wall_s": round(wall, 3),
         "violations": nviol,
     }
-    d = os.path.join(core.VERIF_DIR, "evidence")
+    d = os.path.join(core.OUT_DIR, "evidence")
     os.makedirs(d, exist_ok=True)
     tmp = os.path.join(d, f".{prop}.json.tmp")
     with open(tmp, "w") as f:
